@@ -970,8 +970,10 @@ func main() {
 					src.failAt = k
 					got, _, err := decompressFrom(cc.codec, src, readSizes(r))
 					switch {
+					case err != nil && bytes.HasPrefix(p, got):
+						return "sound" // what was handed out before the error is a prefix of the payload (Props/C16 truncated_stream_prefix)
 					case err != nil:
-						return "sound"
+						return "unsound:wrong-data-before-the-error-" + sum(got)
 					case bytes.Equal(got, p):
 						return "sound"
 					}
